@@ -39,7 +39,7 @@ func verifSelectorCheck(which int, clientAZ string, nodes []NodeInfo, symCounter
 	} else {
 		// 32-bit remainder by constants near 255 does not finish in the solver (measured: unknown
 		// after 30 s per query), so the large lists use concrete counter phases
-		c0 = []uint32{0, 1, 7, 252, 253, 254, 255, 256, 65535}[verifChoose(9)]
+		c0 = []uint32{0, 1, 2, 3, 7, 252, 253, 254, 255, 256, 65535}[verifChoose(11)]
 	}
 	verifAdvanceCounter(sel, c0)
 	n := len(nodes)
@@ -120,5 +120,23 @@ func VerifC22_large() {
 			nodes[pos].AZ = verifNondetString(1)
 		}
 	}
+	verifSelectorCheck(1+verifChoose(2), clientAZ, nodes, false)
+}
+
+// VerifC22_many: eight or more same-AZ replicas (the selector keeps at most 8 candidates): every
+// one of the 8 kept candidates must be a same-AZ replica, for every counter value.
+func VerifC22_many() {
+	n := []int{9, 10, 12}[verifChoose(3)]
+	clientAZ := "z"
+	nodes := make([]NodeInfo, n)
+	for i := range nodes {
+		nodes[i].AZ = "z"
+	}
+	nodes[0].AZ = verifNondetString(1)
+	for k := 0; k < 2; k++ {
+		pos := 1 + verifChoose(n-1)
+		nodes[pos].AZ = verifNondetString(1)
+	}
+	// concrete counter phases (they cover every residue modulo 8 that two consecutive calls can hit)
 	verifSelectorCheck(1+verifChoose(2), clientAZ, nodes, false)
 }
